@@ -16,6 +16,7 @@ NILADIC_TYPES = (
     TokenType.COMPRESSED_STRING,
     TokenType.VARIABLE_GET,
     TokenType.CODEPAGE_NUMBER,
+    TokenType.CHARACTER,
 )
 
 
